@@ -492,6 +492,15 @@ func (r *Run) evalBinary(env *SpecEnv, x EBinary) SV {
 	}
 	a := r.eval(env, x.X)
 	b := r.eval(env, x.Y)
+	// the address of an existing location compared with nil: never nil
+	if x.Op == "==" || x.Op == "!=" {
+		if (a.isAddr && a.t.S == "" && b.t.S == "nil") || (b.isAddr && b.t.S == "" && a.t.S == "nil") {
+			if x.Op == "==" {
+				return SV{t: tFalse, T: B}
+			}
+			return SV{t: tTrue, T: B}
+		}
+	}
 	a, b = r.unifyNil(a, b)
 	switch x.Op {
 	case "==":
@@ -704,6 +713,11 @@ func (r *Run) evalCall(env *SpecEnv, x ECall) SV {
 		// itoa(n): decimal rendering (strconv.Itoa / FormatInt base 10), injective
 		v := r.eval(env, x.Args[0])
 		return SV{t: r.itoa(v.t), T: types.Typ[types.String]}
+	case "atoi":
+		// atoi(s): inverse of itoa (strconv.Atoi on success)
+		v := r.eval(env, x.Args[0])
+		r.itoa(intLit(0))
+		return SV{t: app("Int", "str_atoi", v.t), T: types.Typ[types.Int]}
 	case "sprintf":
 		// sprintf(format, args...): the same uninterpreted function the executor uses for fmt.Sprintf
 		f := r.eval(env, x.Args[0])
@@ -743,6 +757,12 @@ func (r *Run) evalCall(env *SpecEnv, x ECall) SV {
 		v := r.eval(env, x.Args[0])
 		T := r.specTypeArg(env, x.Args[1])
 		return SV{t: r.unboxIface(T, v.t), T: T}
+	case "preexisting":
+		// preexisting(p): p is nil or was allocated before the function under verification was entered (objects held
+		// by informer caches and stores): the entry-state well-formedness of memory applies to it
+		v := r.eval(env, x.Args[0])
+		r.heapGet(env.cur, r.eng.heapKeyAlloc())
+		return SV{t: app("Bool", "<=", v.t, Term{"wm_0", "Int"}), T: types.Typ[types.Bool]}
 	case "allocated":
 		v := r.eval(env, x.Args[0])
 		return SV{t: r.allocated(env.cur, v.t), T: types.Typ[types.Bool]}
@@ -765,6 +785,30 @@ func (r *Run) evalCall(env *SpecEnv, x ECall) SV {
 	}
 	if id.Name == "Int" {
 		return r.eval(env, x.Args[0])
+	}
+	// a function-valued parameter applied in a specification: its pure model when the function is known at this call site,
+	// otherwise an uninterpreted application (function-valued parameters are assumed pure)
+	if sv, ok := env.vars[id.Name]; ok && sv.T != nil {
+		if sig, ok := types.Unalias(sv.T).Underlying().(*types.Signature); ok {
+			var svs []SV
+			for _, a := range x.Args {
+				svs = append(svs, r.eval(env, a))
+			}
+			if sv.fn != nil {
+				if f, ok := sv.fn.Object().(*types.Func); ok && sv.clo == nil {
+					return r.specNativeCallSV(env, f, svs)
+				}
+				specFail("function value %s is a closure: no pure model", id.Name)
+			}
+			if sig.Results().Len() != 1 {
+				specFail("function value %s: only single-result functions can be applied in specifications", id.Name)
+			}
+			var ts []Term
+			for _, a := range svs {
+				ts = append(ts, a.t)
+			}
+			return SV{t: r.fnApp(sv.t, ts, sig), T: sig.Results().At(0).Type()}
+		}
 	}
 	// pure spec functions
 	if pf := r.eng.lookupPure(env.pkg, id.Name); pf != nil {
@@ -827,6 +871,24 @@ func (r *Run) specConvert(env *SpecEnv, T types.Type, args []Expr) SV {
 
 // specNativeCall: calls in specs to Go functions that have a pure native model or a `pure` twin of the same
 // (receiver-qualified) name in their package's contract file.
+// fnApp: application of an unknown (assumed pure) function value: an uninterpreted function of the value and the arguments
+func (r *Run) fnApp(f Term, args []Term, sig *types.Signature) Term {
+	u := r.eng.u
+	sorts := []string{"Int"}
+	name := "fnapp"
+	ts := []Term{f}
+	for _, a := range args {
+		sorts = append(sorts, a.Sort)
+		name += "_" + mangle(a.Sort)
+		ts = append(ts, a)
+	}
+	ret := u.sortOf(sig.Results().At(0).Type())
+	name += "__" + mangle(ret)
+	u.ufunc(name, sorts, ret)
+	r.noteAssume("function-valued parameters called with an unknown target are pure: their result depends only on the function value and the arguments")
+	return app(ret, name, ts...)
+}
+
 func (r *Run) specNativeCall(env *SpecEnv, f *types.Func, recv *SV, args []Expr) SV {
 	var svs []SV
 	if recv != nil {
@@ -835,6 +897,14 @@ func (r *Run) specNativeCall(env *SpecEnv, f *types.Func, recv *SV, args []Expr)
 	for _, a := range args {
 		svs = append(svs, r.eval(env, a))
 	}
+	return r.specNativeCallSVRecv(env, f, recv, svs)
+}
+
+func (r *Run) specNativeCallSV(env *SpecEnv, f *types.Func, svs []SV) SV {
+	return r.specNativeCallSVRecv(env, f, nil, svs)
+}
+
+func (r *Run) specNativeCallSVRecv(env *SpecEnv, f *types.Func, recv *SV, svs []SV) SV {
 	full := f.FullName()
 	if pn, ok := pureNatives[full]; ok {
 		return pn(r, env, svs)
